@@ -50,10 +50,10 @@ CLAIMS = {
           "Coq proof (exact-arithmetic LU/solve correctness, general n) + bit-exact correspondence + exact-rational residual oracle", "3/C16", True),
  "C17": C("Coq theorems for all sizes, bandwidths and indices: every constructor's entries are readable with the expected value (any number type), distinct in-band entries occupy distinct cells, off-band reads are zero, out-of-shape reads and illegal writes panic, a legal write changes exactly one entry; Full+-Full, Banded+-Banded (widened band) and scalar multiples are the entrywise operations (real instance). Mixed-storage sums and component_add/sub are covered by the replay only." + TIE,
           "Coq proof (storage denotation of the Matrix model) + bit-exact operation-sequence correspondence", "3/C17", True),
- "C18": C("Coq theorems for the four explicit solvers (any number type, right-hand side, callback): nfev equals the number of logged right-hand-side evaluations, naccpt <= nstep (RK4: =)." + TIE,
-          "Coq proof of counter invariants + bit-exact correspondence", "3/C18", True),
- "C19": C("Coq theorems (DOPRI5 skeleton, any number type/kernel/callback): recorded callback intervals are contiguous, the newest ends at the solver's final x, UserInterrupt iff the newest call returned Interrupt, nothing runs after an Interrupt, at most one call per loop iteration." + TIE + " Scripted SolOut replays for all six solvers.",
-          "Coq proof (callback-trace invariant) + scripted-callback bit-exact correspondence", "3/C19", True),
+ "C18": C("Coq theorems for all six solvers (any number type, right-hand side, Jacobian function, mass matrix, callback): nfev equals the number of logged right-hand-side evaluations (for BDF including the one made by the initial-step heuristic); for Radau and BDF njev equals the number of logged Jacobian evaluations (calls made inside a finite-difference Jacobian are not part of nfev); naccpt <= nstep for DOPRI5 (RK4: =)." + TIE,
+          "Coq proof of counter invariants (symbolic execution of each loop iteration) + bit-exact correspondence with a recording IVP", "3/C18", True),
+ "C19": C("Coq theorems for all six low-level solvers (any number type, kernel / right-hand side / Jacobian / mass matrix, and ANY callback, wrapped in a recorder): the recorded calls are contiguous (each xold is exactly the previous x), the newest ends at the solver's final x, UserInterrupt iff the newest call returned Interrupt and no earlier call did (nothing runs after an Interrupt); for RK23, RK4, Radau and BDF stated for the whole solver started with an empty record, whose oldest call is (x0, x0, y0, no interpolant); DOPRI5 also: at most one call per loop iteration. Not theorems: the ModifiedSolution clauses (re-evaluation, no-op, linear doubling) and 'ends at xend on success' for Radau/BDF -- scripted-callback replays for all six solvers." + TIE,
+          "Coq proof (callback-trace invariant by symbolic execution of each loop iteration) + scripted-callback bit-exact correspondence", "3/C19", True),
  "C20": C("Coq theorems: SciPy (n, m) layout of the transposition, status 0/1/-1 with success = status >= 0, and for every sparsity pattern the greedy grouping never puts two columns sharing a row into one group. Tie: the extension built from /repo is run in Python on the same cases as the Rust API and the model (bit for bit), grouping read through the cfg(ivp_verif) hook.",
           "Coq proof (layout, grouping validity) + Python/Rust/model differential", "3/C20", True),
 }
